@@ -497,7 +497,9 @@ fn main() {
         // process exits with status 78 so that the run reports the history instead of a crash
         let abort_path = format!("{}.abort", a.out);
         std::panic::set_hook(Box::new(move |info| {
-            if !info.can_unwind() {
+            let _ = info;
+            // a second panic before the first one was caught by the runner's catch_unwind cannot unwind
+            if runner::PANIC_DEPTH.fetch_add(1, std::sync::atomic::Ordering::Relaxed) >= 1 {
                 alloc::TRACK.store(false, std::sync::atomic::Ordering::Relaxed);
                 let text = runner::CUR.try_lock().map(|c| c.clone()).unwrap_or_default();
                 let _ = std::fs::write(&abort_path, text);
